@@ -757,3 +757,25 @@ def run(idx, rep, tier):
     from .shared import share
     from .c16 import r10 as _c16r10
     share(k, 'C04.R14', 'a WebAuthn host key signature proves possession for this exchange (= C16.R10): the client data is compared with the prefix built from the exchange hash being verified', _c16r10)
+    rep.rule('C04.R15', 'with HostKeyAlias set the host key, certificate '
+             'principals and application callbacks are checked for the '
+             'alias: the host argument of _validate_host_key in '
+             'validate_server_host_key depends on self._host_key_alias, as '
+             'the known_hosts lookup in _connection_made does (the two '
+             'sites agree on whose identity is verified)')
+    _fvh = k.func('connection.SSHClientConnection.validate_server_host_key')
+    _cvh = [(n, c) for n, c in k.calls_named(_fvh, '_validate_host_key',
+                                             'self')]
+    rep.floor('C04.R15', 'host key validations', len(_cvh), 1)
+    from ..flow import depends_on as _dep15
+    for _n, _c in _cvh:
+        _d = _dep15(k.cfg(_fvh), k.rd(_fvh), _n.id, _c.args[0]) \
+            if _c.args else set()
+        rep.check('self._host_key_alias' in _d, 'C04.R15',
+                  key(_fvh, 'validated for the alias'),
+                  'host = self._host_key_alias or self._host',
+                  'the key / certificate is validated for the dialled name '
+                  'although an alias is set: a certificate the CA issued '
+                  'to web.internal is accepted for alias db.internal, and '
+                  'the genuine alias certificate is refused',
+                  k.loc(_fvh, _n))
